@@ -434,8 +434,9 @@ UploadProblems(cfg, op) ==
 \cup (IF op.keyClass = "over" THEN {"KeyTooLongError"} ELSE {})
 \cup (IF cfg.integrity /\ op.digest \in {"malformed", "short", "empty"} THEN {"InvalidDigest"} ELSE {})
 \cup (IF cfg.integrity /\ op.digest = "wrong" THEN {"BadDigest"} ELSE {})
-\cup (IF op.length \in {"shorter", "longer"}
-        THEN {"IncompleteBody"} \cup (IF cfg.integrity /\ op.digest = "good" THEN {"BadDigest"} ELSE {}) ELSE {})
+\* (C08 requires a refusal, not a particular code: a body that ends before its first byte is answered
+\* with InternalError by the key-value backends)
+\cup (IF op.length \in {"shorter", "longer"} THEN {"IncompleteBody", "!"} ELSE {})
 \cup (IF op.failAt >= 0 THEN {"!"} ELSE {})
 
 UploadKey(op) == op.k \o (CASE op.keyClass = "max" -> <<33>> [] op.keyClass = "over" -> <<33, 33>> [] OTHER -> <<>>)
